@@ -14,6 +14,8 @@ def main(tier):
     crys = CRYS_Q if tier == 'quick' else CRYS_T
     sups = SUP_Q if tier == 'quick' else SUP_T
     args = [(c, s, tier, SEED, k) for k in ('interstitial', 'vacancy') for c in crys for s in sups]
+    if tier == 'quick':      # curated: a supercell that breaks the symmetry relating states of L1_2, and cells of a single unit cell
+        args += [('L12', 'sheared', tier, SEED, 'interstitial'), ('L12', '4x3x3', tier, SEED, 'interstitial'), ('FCC', '1x1x1', tier, SEED, 'interstitial'), ('HCP', '1x1x1', tier, SEED, 'vacancy')]
     runner.run(rep, 'makesupercells-contract', S.w_setup, args, 'onsager/OnsagerCalc.py::VacancyMediated.makesupercells')
     from vf import extract
     for q in ('Interstitial.makesupercells', 'VacancyMediated.makesupercells'):
